@@ -182,3 +182,10 @@ macro_rules! literal_matcher_from_pattern {
         }
     };
 }
+
+// Verification hook: re-export of the private tracker trait. Compiled only with `--cfg exmex_verif`.
+#[cfg(exmex_verif)]
+#[doc(hidden)]
+pub mod verif_number_tracker {
+    pub use super::number_tracker::NumberTracker;
+}
